@@ -149,3 +149,20 @@ def first_difference(t, lo, hi):
             if ev(t, x) != x: return x
         except Exception: return None
     return None
+
+
+def canonical_term(t, lo, hi):
+    """an equivalent simple E1 term when t is a variable (x, or x - a) with all its bits back in place, else None"""
+    r = slices(t, lo, hi)
+    if r is None: return None
+    rng = {"x": hi}
+    B, c = r
+    p = _is_var_in_place(B)
+    if p is None or c != 0: return None
+    v, top = p
+    if v == "x":
+        return ("x",) if top >= hi.bit_length() else None
+    if isinstance(v, tuple) and v[0] == "sub" and v[1] == "x":
+        ymax = hi - v[2]
+        return ("sub", ("x",), v[2], 64) if (lo >= v[2] and top >= ymax.bit_length()) else None
+    return None
